@@ -305,6 +305,14 @@ func main() {
 						}
 						w.OutcomeString(sig.TypeSeq(eager))
 						// one representative per decode shape: state-space exploration of accessor programs
+						// (not for packets of hundreds of layers - an input extended by thousands of
+						// filler bytes: the BFS replays its path for every transition and renders the
+						// whole packet for the String/Dump letters, a cubic cost of minutes per case that
+						// only trips the no-progress watchdog; their full-decode equivalence was judged above)
+						if len(eager.Layers()) > 64 {
+							w.Count("bfs_skipped_over_64_layers", 1)
+							return
+						}
 						sh := shapeOf(c, o) + fmt.Sprint(o.DecodeStreamsAsDatagrams)
 						if x.shapes[sh] >= 1 {
 							return
